@@ -389,3 +389,6 @@ def run(chk, replay):
         # headers with repeated names and names that look like generated keys (FieldKeys.tla): every key reads its own component
         from harness import keys
         keys.phase(chk, "read")
+        # the working directory changes between selections on plotfiles opened under a relative name (PoolEnv.tla)
+        from harness import poolenv
+        poolenv.phase(chk, "select")
